@@ -13,6 +13,14 @@ mutants(text) -> generator of (operator, index, mutant text):
  syntax lives inside string literals).
 mutants(text, span=(lo, hi)) edits only tokens that start inside the character range (used for the per-statement
  programs, whose wrapper / prelude must stay intact).
+head_end_mutants(text, span, extra) -> (operator, index, mutant): what no single replacement by ALPHABET reaches (triage round 5)
+   head-insert:<sym> / head-replace:<sym>   every operator / symbol of HEAD_SYMBOLS in front of / instead of the FIRST token
+                                            of every statement (`@ ::a = 1;`, `/ x;`, `% $x = 1;` ...)
+   end-append:<tok>                         the text + one more token and NO `;`: a source that ends in every token kind
+                                            (alphabet, symbols, and `extra` = the macro names of the program's header)
+header_line_mutants(header) -> (operator, line number, mutant header): the header is line-oriented, so its neighbourhood is
+   taken per LINE: delete / duplicate / swap with next / replace by and insert each of BLANK_LINES (`#`, `# `, `#//`, ...) /
+   cut the line after its k-th token / append a token of LINE_TOKENS / move the line to the end (definitions on LATE lines)
 contexts(text) -> per token (same numbering as the `index` of the flat operators) its CELL CONTEXT
    (enclosing construct, statement head, class of the previous token, class of the token)
  used to stratify the quick-tier sample: every (context x operator) cell is run at least once.
@@ -39,6 +47,23 @@ STRING_ALPHABET = ['""', '"&<"', '"&<red"', '"&<$x,>"', '"$("', '"Hardcode.calc(
 GROUP_ALPHABET = [";", "()", "{}", "[]", "x", "\"x\"", "1", "( )", "{ }"]
 BRACKETS = "()[]{}"
 CLOSER = {"(": ")", "[": "]", "{": "}"}
+
+
+# every operator / symbol character of JMC and of Minecraft commands, alone and doubled up, that can open a statement
+HEAD_SYMBOLS = ["@", "~", "^", ".", "*", "/", "%", "<", ">", "?", "|", "&", "+", "'", "`", ">>", "<<", "??=", "><", "==", "++",
+                "--", "-=", "*=", "/=", "%=", "?=", "!=", "<=", ">=", "||", "..", "@s", "@a[", "#", "$", "::", ":", "=", "-", "!",
+                "\\", ",", ";", "(", ")", "[", "]", "{", "}", "=>", ":=", "+=", "&&", "$(", "\"", "//", "()", "{}", "[]", "1", "-1",
+                "\"x\"", "with", "run", "else", "matches"]
+END_TOKENS = ["x", "1", "-1", "1.5", "\"x\"", "'x'", "`x`", "$x", "$", "@s", "@", "()", "(1)", "{}", "[]", "x.y", "x:y", "::", "::a",
+              "=", "+", "-", "!", "~", "^", "%", "*", "/", "//", "//c", "#", "\\", ".", "..", ",", ":", "=>", ":=", "++", "&&",
+              "if", "else", "while", "do", "for", "switch", "case", "function", "class", "new", "return", "with", "run", "execute",
+              "import", "async", "say", "f()", "f() with", "Text.tellraw", "Hardcode.repeat", "@lazy", "@add(__tick__)", "\n", "\t"]
+# forms of a header line that carries no directive
+BLANK_LINES = ["#", "# ", "#\t", "#//", "# //", "#// c", "# // c", "", " ", "\t", "//", "// c", " // c", "##", "# #", "#;", "#()",
+               "#\"s\"", "#1", "#-", "#define", "# define", "#define ", "#define //", "#deepdefine", "#bind", "#enum", "#zz",
+               "x", "define A 1", "\\"]
+LINE_TOKENS = ["x", "1", "-1", "\"s\"", "(", ")", "()", "(a)", "(a, b)", "{}", "[]", ",", "=", "#", "//", "// c", "\\", "EVAL",
+               "__namespace__", "$x", "@s", ";", "'"]
 
 
 def lex(text: str):
@@ -183,3 +208,64 @@ def mutants(text: str, span=None):
         yield ("truncate-close", n, pre + " " + closers)
         yield ("truncate-close:;", n, pre + "; " + closers)
         yield ("truncate-close;:", n, pre + " " + closers + ";")
+
+
+def head_end_mutants(text: str, span=None, extra=()):
+    pieces = lex(text)
+    idx = [i for i, (k, _) in enumerate(pieces) if k != "ws"]
+    strs = [s for _, s in pieces]
+    offs, o = [], 0
+    for _, s_ in pieces:
+        offs.append(o)
+        o += len(s_)
+    ctx = contexts(text)
+    for n, i in enumerate(idx):
+        if span is not None and not (span[0] <= offs[i] < span[1]):
+            continue
+        if ctx[n][2] != "^" or pieces[i][0] == "comment":
+            continue
+        for a in HEAD_SYMBOLS:
+            yield ("head-insert:" + a, n, "".join(strs[:i] + [a, " "] + strs[i:]))
+            if a != strs[i] and a not in ALPHABET:
+                yield ("head-replace:" + a, n, "".join(strs[:i] + [a] + strs[i + 1:]))
+    if idx:
+        last = len(idx) - 1
+        base = text.rstrip()
+        for a in list(END_TOKENS) + [e for e in extra if e not in END_TOKENS]:
+            yield ("end-append:" + a, last, base + " " + a)
+            yield ("end-append-nl:" + a, last, base + "\n" + a + "\n")
+
+
+def header_line_mutants(header: str):
+    lines = header.split("\n")
+
+    def join(ls):
+        return "\n".join(ls)
+
+    for n, ln in enumerate(lines):
+        yield ("line-delete", n, join(lines[:n] + lines[n + 1:]))
+        yield ("line-duplicate", n, join(lines[:n + 1] + lines[n:]))
+        if n + 1 < len(lines):
+            yield ("line-swap", n, join(lines[:n] + [lines[n + 1], ln] + lines[n + 2:]))
+            yield ("line-to-end", n, join(lines[:n] + lines[n + 1:] + [ln]))
+        yield ("line-join-next", n, join(lines[:n] + [ln + " " + (lines[n + 1] if n + 1 < len(lines) else "")] + lines[n + 2:]))
+        for b in BLANK_LINES:
+            if b != ln:
+                yield ("line-replace:" + b, n, join(lines[:n] + [b] + lines[n + 1:]))
+                yield ("line-insert:" + b, n, join(lines[:n] + [b] + lines[n:]))
+        toks = [(k, s_) for k, s_ in lex(ln)]
+        acc, cuts = "", []
+        for k, s_ in toks:
+            if k != "ws" and acc.strip():
+                cuts.append(acc)
+            acc += s_
+        for c_ in cuts:
+            yield ("line-cut", n, join(lines[:n] + [c_.rstrip()] + lines[n + 1:]))
+            yield ("line-cut-ws", n, join(lines[:n] + [c_.rstrip() + " "] + lines[n + 1:]))
+            yield ("line-cut-comment", n, join(lines[:n] + [c_.rstrip() + " // c"] + lines[n + 1:]))
+        if ln.strip():
+            for a in LINE_TOKENS:
+                yield ("line-append:" + a, n, join(lines[:n] + [ln + " " + a] + lines[n + 1:]))
+    yield ("line-insert-end:#", len(lines), header + "\n#")
+    yield ("line-insert-end:# ", len(lines), header + "\n# ")
+    yield ("line-insert-end:#//", len(lines), header + "\n#//")
